@@ -15,6 +15,7 @@ import OFV.Proofs.C07Ops
 import OFV.Proofs.C07Hop
 import OFV.Proofs.C07DCp
 import OFV.Proofs.C07DoubleComm
+import OFV.Proofs.C07DCMain
 
 namespace OFV.C07
 open OFV OFV.Spec OFV.Spec.C07 OFV.Model OFV.Model.C07 OFV.Proofs.C07 OFV.Proofs.C07F
@@ -402,9 +403,9 @@ Proved here, completely: the helper `_commutator_one_body_with_one_body`.  For o
 pairing `i^ j, j^ i ↦ n_i - n_j`, single pairings, shared creation or annihilation mode, disjoint
 modes; only `a = b` is excluded, which the caller skips) it adds exactly `coef · [a, b]` to
 `prior_terms`: every matrix element of the result is that of `prior` plus `coef · ⟨u| ab - ba |s⟩`.
-Not proved: the one-body / two-body and two-body / two-body helpers (`dcOneTwo`, `dcTwoTwo`,
-`addThreeBody`) and the sum over the term pairs; these are covered exhaustively on 4 modes by the
-correspondence run and the oracle. -/
+The one-body / two-body and two-body / two-body helpers, the three-body insertion and the sum over
+the term pairs are proved below in ring form (`dc_one_body_two_body_sound`, `dc_two_body_two_body_sound`,
+`dc_three_body_insertion_sound`, `dc_commutator_sound_ring`, `dc_commutator_sound`). -/
 theorem dc_one_body_one_body_sound (i j k l : Nat) (coef : GQ) (prior : List (List (Nat × Nat) × GQ))
     (hne : ¬ (i = k ∧ j = l)) (s u : Nat) :
     den (phiF s u) (dcOneOne [(i, 1), (j, 0)] [(k, 1), (l, 0)] coef prior) =
@@ -422,6 +423,110 @@ theorem dc_commutator_one_body_sound (tol : Rat) (A B prior : List (List (Nat ×
   dcCommutator_oneBody tol s u A B hA hB prior
 
 example : dcOneOne [(2, 1), (1, 0)] [(1, 1), (0, 0)] ⟨3, 0⟩ [] = [([(2, 1), (0, 0)], ⟨0 + 3, 0 + 0⟩)] := by decide +kernel
+
+/-! ### the diagonal-Coulomb commutator with two-body terms, ring form -/
+
+/-- the canonical anticommutation relations for a ring interpretation `I` of the ladder operators
+(`(p, 1)` creation, `(p, 0)` annihilation): `{a_p, a†_q} = δ_pq`, `{a_p, a_q} = {a†_p, a†_q} = 0`. -/
+def CARRel {A : Type} [Ring A] (I : Proofs.C03.Interp A) : Prop :=
+  (∀ x l : Nat × Nat, x.2 ≠ 0 → l.2 = 0 → I.g l * I.g x + I.g x * I.g l = if x.1 = l.1 then 1 else 0) ∧
+  (∀ x l : Nat × Nat, x.2 = l.2 → x.1 ≠ l.1 → I.g l * I.g x + I.g x * I.g l = 0) ∧
+  (∀ x l : Nat × Nat, x.2 = l.2 → x.1 = l.1 → I.g l * I.g x = 0)
+
+theorem CARRel.car {A : Type} [Ring A] {I : Proofs.C03.Interp A} (h : CARRel I) : Proofs.C07R.CAR I :=
+  ⟨h.1, h.2.1, h.2.2⟩
+
+/-- the Fock space of the Spec satisfies the relations -/
+theorem fock_CARRel : CARRel Proofs.C03.fockInterp :=
+  ⟨Proofs.C07R.fock_CAR.mixed, Proofs.C07R.fock_CAR.same, Proofs.C07R.fock_CAR.sq⟩
+
+/-- `_commutator_one_body_with_one_body`, ring form and without any side condition: the helper adds
+`coef · [i^ j, k^ l]`. -/
+theorem dc_one_body_one_body_sound_ring {A : Type} [Ring A] (I : Proofs.C03.Interp A) (h : CARRel I)
+    (i j k l : Nat) (coef : GQ) (prior : List (List (Nat × Nat) × GQ)) :
+    I.evalOp (dcOneOne [(i, 1), (j, 0)] [(k, 1), (l, 0)] coef prior) =
+      I.evalOp prior + I.ι coef *
+        (I.evalT [(i, 1), (j, 0)] * I.evalT [(k, 1), (l, 0)] - I.evalT [(k, 1), (l, 0)] * I.evalT [(i, 1), (j, 0)]) :=
+  Proofs.C07R.dcOneOne_eval h.car i j k l coef prior
+
+/-- **`_commutator_one_body_with_two_body`**: for a one-body term `a = p^ q` (ANY `p`, `q`, number
+operators included) and a two-body term `b = r^ s^ t u` with `r ≠ s`, `t ≠ u` (every coincidence
+between the one-body and the two-body modes allowed: none, one pairing, both pairings, the early
+return `p = q ∧ (r, s) = (t, u)`), in either argument order, the helper adds `coef · [first, second]`
+to `prior_terms` — in every ring with the anticommutation relations.  The re-sorting of the new
+creation / annihilation pair with its sign, and the dropped term when the pair coincides, are part of
+the statement. -/
+theorem dc_one_body_two_body_sound {A : Type} [Ring A] (I : Proofs.C03.Interp A) (h : CARRel I)
+    (p q r s t u : Nat) (hrs : r ≠ s) (htu : t ≠ u) (coef : GQ) (prior : List (List (Nat × Nat) × GQ)) :
+    (I.evalOp (dcOneTwo [(p, 1), (q, 0)] [(r, 1), (s, 1), (t, 0), (u, 0)] coef prior) =
+      I.evalOp prior + I.ι coef *
+        (I.evalT [(p, 1), (q, 0)] * I.evalT [(r, 1), (s, 1), (t, 0), (u, 0)] -
+          I.evalT [(r, 1), (s, 1), (t, 0), (u, 0)] * I.evalT [(p, 1), (q, 0)])) ∧
+    (I.evalOp (dcOneTwo [(r, 1), (s, 1), (t, 0), (u, 0)] [(p, 1), (q, 0)] coef prior) =
+      I.evalOp prior + I.ι coef *
+        (I.evalT [(r, 1), (s, 1), (t, 0), (u, 0)] * I.evalT [(p, 1), (q, 0)] -
+          I.evalT [(p, 1), (q, 0)] * I.evalT [(r, 1), (s, 1), (t, 0), (u, 0)])) :=
+  ⟨Proofs.C07R.dcOneTwo_eval h.car p q r s t u hrs htu coef prior,
+   Proofs.C07R.dcOneTwo_eval_swap h.car p q r s t u hrs htu coef prior⟩
+
+/-- **`_add_three_body_term`**: inserting `x^` and `x` into `k^ l^ m n` and re-sorting adds
+`coef · x^ k^ l^ x m n`, for every order relation (ties included) among the indices. -/
+theorem dc_three_body_insertion_sound {A : Type} [Ring A] (I : Proofs.C03.Interp A) (h : CARRel I)
+    (x k l m n : Nat) (coef : GQ) (prior : List (List (Nat × Nat) × GQ)) :
+    I.evalOp (addThreeBody [(k, 1), (l, 1), (m, 0), (n, 0)] coef x prior) =
+      I.evalOp prior + I.ι coef * I.evalT [(x, 1), (k, 1), (l, 1), (x, 0), (m, 0), (n, 0)] := by
+  rw [Proofs.C07R.addThreeBody_eval h.car, Proofs.C07R.evalT6]; rfl
+
+/-- **`_commutator_two_body_diagonal_with_two_body`**: for a normal-ordered diagonal Coulomb term
+`D = i^ j^ i j` (`i > j`) and a normal-ordered two-body term `T = k^ l^ m n` (`k > l`, `m > n`)
+different from `D` (the caller skips `D = T`), the helper adds `coef · [D, T]`: all seven branches
+(both pairings, one annihilation match with or without the unbalanced creation, one creation match,
+no match) are covered. -/
+theorem dc_two_body_two_body_sound {A : Type} [Ring A] (I : Proofs.C03.Interp A) (h : CARRel I)
+    (i j k l m n : Nat) (hij : j < i) (hkl : l < k) (hmn : n < m)
+    (hne : ¬ (i = k ∧ j = l ∧ i = m ∧ j = n)) (coef : GQ) (prior : List (List (Nat × Nat) × GQ)) :
+    I.evalOp (dcTwoTwo [(i, 1), (j, 1), (i, 0), (j, 0)] [(k, 1), (l, 1), (m, 0), (n, 0)] coef prior) =
+      I.evalOp prior + I.ι coef *
+        (I.evalT [(i, 1), (j, 1), (i, 0), (j, 0)] * I.evalT [(k, 1), (l, 1), (m, 0), (n, 0)] -
+          I.evalT [(k, 1), (l, 1), (m, 0), (n, 0)] * I.evalT [(i, 1), (j, 1), (i, 0), (j, 0)]) :=
+  Proofs.C07R.dcTwoTwo_eval h.car i j k l m n hij hkl hmn hne coef prior
+
+/-- the documented contract on a term of `operator_a`: the identity, a hopping / number term `i^ j`, or
+a normal-ordered diagonal Coulomb term `i^ j^ i j` with `i > j` -/
+def ContractA (t : List (Nat × Nat)) : Prop :=
+  t = [] ∨ (∃ i j, t = [(i, 1), (j, 0)]) ∨ (∃ i j, j < i ∧ t = [(i, 1), (j, 1), (i, 0), (j, 0)])
+
+/-- the documented contract on a term of `operator_b`: the identity, a one-body term, or a
+normal-ordered two-body term `k^ l^ m n` with `k > l`, `m > n` -/
+def ContractB (t : List (Nat × Nat)) : Prop :=
+  t = [] ∨ (∃ i j, t = [(i, 1), (j, 0)]) ∨
+    (∃ k l m n, l < k ∧ n < m ∧ t = [(k, 1), (l, 1), (m, 0), (n, 0)])
+
+/-- **`dc_commutator_sound`, ring form — the whole function as one statement.**  If every term of
+`operator_a` keeps `ContractA` and every term of `operator_b` keeps `ContractB`, then for every
+`prior_terms`, every tolerance and every coefficient values,
+`commutator_ordered_diagonal_coulomb_with_two_body_operator(A, B, prior)` denotes
+`prior + (A·B - B·A)` in every ring with the anticommutation relations and multiplicative
+coefficients: the double loop, the `term_a == term_b` / empty-term skips, the dispatch on the term
+lengths and the four helpers are all inside the statement (the out-of-spec fallback is unreachable
+under the contract). -/
+theorem dc_commutator_sound_ring {A : Type} [Ring A] (I : Proofs.C03.Interp A) (h : CARRel I)
+    (hmul : ∀ x y, I.ι (x * y) = I.ι x * I.ι y) (tol : Rat)
+    (a b prior : List (List (Nat × Nat) × GQ))
+    (ha : ∀ e ∈ a, ContractA e.1) (hb : ∀ e ∈ b, ContractB e.1) :
+    I.evalOp (dcCommutator tol a b prior) =
+      I.evalOp prior + (I.evalOp a * I.evalOp b - I.evalOp b * I.evalOp a) :=
+  Proofs.C07R.dcCommutator_eval h.car hmul tol a b ha hb prior
+
+/-- `dc_commutator_sound` on the Fock space of the Spec: as endomorphisms of Fock space (the lifted
+`actF` action), the result of the function is `prior + [A, B]`. -/
+theorem dc_commutator_sound (tol : Rat) (a b prior : List (List (Nat × Nat) × GQ))
+    (ha : ∀ e ∈ a, ContractA e.1) (hb : ∀ e ∈ b, ContractB e.1) :
+    Proofs.C03.fockInterp.evalOp (dcCommutator tol a b prior) =
+      Proofs.C03.fockInterp.evalOp prior +
+        (Proofs.C03.fockInterp.evalOp a * Proofs.C03.fockInterp.evalOp b -
+          Proofs.C03.fockInterp.evalOp b * Proofs.C03.fockInterp.evalOp a) :=
+  dc_commutator_sound_ring Proofs.C03.fockInterp fock_CARRel Proofs.C07D.fock_ι_mul tol a b prior ha hb
 
 /-! ### `double_commutator`, generic path -/
 
